@@ -100,6 +100,12 @@ class Translator:
                 return self.tr(ch[1], bound)
             if d is False:
                 return self.tr(ch[2], bound)
+            c0 = ch[0]
+            if c0.decl().kind() == z3.Z3_OP_EQ and c0.arg(0).sort() == z3.IntSort():
+                # [a == b] ? T : E   =   E + delta(a, b) (T - E)        (keeps everything polynomial; deltas collapse sums later)
+                a_, b_ = self.tr(c0.arg(0), bound), self.tr(c0.arg(1), bound)
+                tt, ee = self.tr(ch[1], bound), self.tr(ch[2], bound)
+                return ee + sp.KroneckerDelta(a_, b_) * (tt - ee)
             return sp.Piecewise((self.tr(ch[1], bound), self.cond(ch[0], bound)), (self.tr(ch[2], bound), True))
         if k == z3.Z3_OP_UNINTERPRETED:
             if t.num_args() == 0:
@@ -154,11 +160,34 @@ def canon_sums(e):
     return e
 
 
+def split_multi(e):
+    """Sum(f, (x, ..), (y, ..))  ->  Sum( indep_x(f) * Sum(dep_x(f), (x, ..)), (y, ..) ): multi-limit sums as nested single-limit sums with the factors that do
+    not depend on the inner variable pulled out of the inner sum"""
+    guard = 0
+    while guard < 40:
+        guard += 1
+        multi = [s_ for s_ in e.atoms(sp.Sum) if len(s_.limits) > 1]
+        if not multi:
+            return e
+        s_ = sorted(multi, key=lambda x: x.count_ops())[0]
+        x_lim = s_.limits[0]
+        total = sp.Integer(0)
+        for term in sp.Add.make_args(sp.expand(s_.function)):
+            facs = list(sp.Mul.make_args(term))
+            dep = sp.Mul(*[f_ for f_ in facs if f_.has(x_lim[0])])
+            ind = sp.Mul(*[f_ for f_ in facs if not f_.has(x_lim[0])])
+            inner = sp.Sum(dep, x_lim) if dep != 1 else (x_lim[2] - x_lim[1] + 1)
+            total += sp.Sum(ind * inner, *s_.limits[1:])
+        e = e.xreplace({s_: total})
+    return e
+
+
 def normal(e):
     """expand products over sums, split sums, pull constants out, canonical bound names"""
     e = _squares(sp.expand(e))
     e = sp.factor_terms(e)
     e = _squares(sp.expand(e))
+    e = split_multi(e)
     return canon_sums(e)
 
 
@@ -182,10 +211,31 @@ def rewrite_sums(e, rule):
     return e
 
 
+def delta_subst(e):
+    """delta(x, y) f(y) = delta(x, y) f(x): inside a term that carries a delta on a symbol, that symbol is replaced by the other argument"""
+    out = sp.Integer(0)
+    for term in sp.Add.make_args(sp.expand(e)):
+        facs = list(sp.Mul.make_args(term))
+        for d in [f_ for f_ in facs if isinstance(f_, sp.KroneckerDelta)]:
+            x_, y_ = d.args
+            if y_.is_Symbol:
+                rest = sp.Mul(*[f_ for f_ in facs if f_ is not d]).xreplace({y_: x_})
+                facs = [d] + list(sp.Mul.make_args(rest))
+            elif x_.is_Symbol:
+                rest = sp.Mul(*[f_ for f_ in facs if f_ is not d]).xreplace({x_: y_})
+                facs = [d] + list(sp.Mul.make_args(rest))
+        out += sp.Mul(*facs)
+    return out
+
+
 def is_zero(e):
     e = normal(e)
     if e == 0:
         return True
+    if e.has(sp.KroneckerDelta):
+        e = normal(delta_subst(e))
+        if e == 0:
+            return True
     try:
         return sp.simplify(e) == 0
     except Exception:
@@ -219,3 +269,84 @@ def split_piecewise_sums(e):
                 changed = True
                 break
     return e
+
+
+def interchange(e):
+    """Sum_r( A(r) * Sum_j( B(r, j) ) )  =  Sum_j( Sum_r( A(r) B(r, j) ) ): applied wherever an outer summand contains an inner Sum that depends on the
+    outer variable (finite sums commute)"""
+    changed = True
+    guard = 0
+    while changed and guard < 50:
+        changed = False
+        guard += 1
+        e = normal(e)
+        for s_ in sorted(e.atoms(sp.Sum), key=lambda x: -x.count_ops()):
+            if len(s_.limits) != 1:
+                continue
+            v, lo, hi = s_.limits[0]
+            facs = list(sp.Mul.make_args(s_.function))
+            inner = [x for x in facs if isinstance(x, sp.Sum) and x.has(v) and len(x.limits) == 1]
+            if not inner:
+                continue
+            t_ = inner[0]
+            others = sp.Mul(*[x for x in facs if x is not t_])
+            u, lo2, hi2 = t_.limits[0]
+            if lo2.has(v) or hi2.has(v):
+                continue
+            uu = sp.Dummy("u", integer=True)          # fresh name while the two sums are exchanged (canonical names are restored by normal())
+            rep = sp.Sum(sp.Sum(others * t_.function.xreplace({u: uu}), (v, lo, hi)), (uu, lo2, hi2))
+            e = e.xreplace({s_: rep})
+            changed = True
+            break
+    return normal(e)
+
+
+def collapse_deltas(e, known_zero=(), in_range=None):
+    """delta(a, a) = 1; delta(a, b) = 0 for a - b a non-zero number or (a, b) listed as distinct; Sum_j delta(j, c) f(j) = f(c) for c inside the range
+    (in_range(c, lo, hi) must confirm)"""
+    def fix(d):
+        a_, b_ = d.args
+        df = sp.simplify(a_ - b_)
+        if df == 0:
+            return sp.Integer(1)
+        if df.is_number:
+            return sp.Integer(0)
+        for x, y in known_zero:
+            if {a_, b_} == {x, y}:
+                return sp.Integer(0)
+        return d
+    changed = True
+    guard = 0
+    while changed and guard < 60:
+        changed = False
+        guard += 1
+        e = normal(e.replace(lambda x: isinstance(x, sp.KroneckerDelta), fix))
+        for s_ in sorted(e.atoms(sp.Sum), key=lambda x: x.count_ops()):
+            if len(s_.limits) != 1:
+                continue
+            v, lo, hi = s_.limits[0]
+            facs = list(sp.Mul.make_args(s_.function))
+            ds = [x for x in facs if isinstance(x, sp.KroneckerDelta) and x.has(v)]
+            if not ds:
+                continue
+            d = ds[0]
+            a_, b_ = d.args
+            sol = None
+            if a_ == v and not b_.has(v):
+                sol = b_
+            elif b_ == v and not a_.has(v):
+                sol = a_
+            else:
+                try:
+                    sols = sp.solve(sp.Eq(a_, b_), v)
+                    if len(sols) == 1:
+                        sol = sols[0]
+                except Exception:
+                    sol = None
+            if sol is None or (in_range is not None and not in_range(sol, lo, hi)):
+                continue
+            rest = sp.Mul(*[x for x in facs if x is not d])
+            e = e.xreplace({s_: rest.xreplace({v: sol})})
+            changed = True
+            break
+    return normal(e)
